@@ -204,17 +204,20 @@ fn m(r: usize, c: usize) -> DenseMatrix<f64> {
     DenseMatrix::fill(r, c, 1.0)
 }
 
-// @vp name=c03_shape_binary_ops prop=C03 tier=quick t=480 fns=DenseMatrix::add,sub,mul,div,add_mut,sub_mut,mul_mut,div_mut size=2x3-vs-3x2,2x3-vs-2x2,2x3-vs-1x6 dom=op+pair-symbolic expect=panic
+// @vp name=c03_shape_binary_ops prop=C03 tier=quick t=480 fns=DenseMatrix::add,sub,mul,div,add_mut,sub_mut,mul_mut,div_mut size=2x3|3x2,2x3|2x2,2x2|2x3,1x3|2x3,2x3|1x3,2x3|1x6 dom=op+pair-symbolic expect=panic
 #[cfg_attr(kani, kani::proof)]
 #[cfg_attr(kani, kani::unwind(9))]
 pub fn c03_shape_binary_ops() {
     let op = anyu(0, 7);
-    let pair = anyu(0, 2);
-    let a = m(2, 3);
-    let b = match pair {
-        0 => m(3, 2),
-        1 => m(2, 2),
-        _ => m(1, 6),
+    let pair = anyu(0, 5);
+    // every way of differing: both dimensions, columns only, rows only, same size other shape - in both operand orders
+    let (a, b) = match pair {
+        0 => (m(2, 3), m(3, 2)),
+        1 => (m(2, 3), m(2, 2)),
+        2 => (m(2, 2), m(2, 3)),
+        3 => (m(1, 3), m(2, 3)),
+        4 => (m(2, 3), m(1, 3)),
+        _ => (m(2, 3), m(1, 6)),
     };
     let mut am = a.clone();
     vp_reached!();
@@ -319,10 +322,10 @@ pub fn c03_shape_stack_reshape_copy() {
     vp_reached!();
     match which {
         0 => {
-            let _ = a.h_stack(&m(3, 3));
+            let _ = if kani::any() { a.h_stack(&m(3, 3)) } else { a.h_stack(&m(1, 3)) };
         }
         1 => {
-            let _ = a.v_stack(&m(2, 2));
+            let _ = if kani::any() { a.v_stack(&m(2, 2)) } else { a.v_stack(&m(2, 4)) };
         }
         2 => {
             let _ = a.reshape(2, 2);
@@ -334,7 +337,11 @@ pub fn c03_shape_stack_reshape_copy() {
             am.copy_from(&m(3, 2));
         }
         5 => {
-            am.copy_from(&m(2, 2));
+            if kani::any() {
+                am.copy_from(&m(2, 2));
+            } else {
+                am.copy_from(&m(2, 4));
+            }
         }
         6 => {
             BaseVector::copy_from(&mut v3, &v2);
